@@ -1,6 +1,7 @@
 import ServiceModel.Proofs.Reachable
 import ServiceModel.Properties.C08
 import ServiceModel.Proofs.NoSlash
+import ServiceModel.Proofs.CountEq
 /-!
 # C12 — Batch bookkeeping and module callbacks are exact (state part)
 -/
@@ -25,6 +26,24 @@ theorem pending_implies_batch_running (hc : CfgOK cfg p) {s : State} (hr : Reach
 theorem pending_plus_answered_le_issued (hc : CfgOK cfg p) {s : State} (hr : Reachable cfg p h0 t0 s)
     (c : CtxId) (x : Ctx) (hx : Map.get s.ctxs c = some x) (hb : x.bstate = .running) :
     (s.activeI.filter (fun r => r.ctx = c)).length + x.respN ≤ x.reqN := (reachable_inv hc hr).x.counts c x hx hb
+
+/-- Between operations the counters of the batch in flight are exact: pending + answered = issued. Every request of
+    the batch is either still pending or has been answered (and counted) — none is lost or counted twice —
+    so the batch is completed by responses exactly when the last pending request is answered. -/
+theorem pending_plus_answered_eq_issued (hc : CfgOK cfg p) {s : State} (hr : Reachable cfg p h0 t0 s)
+    (c : CtxId) (x : Ctx) (hx : Map.get s.ctxs c = some x) (hb : x.bstate = .running) :
+    (s.activeI.filter (fun r => r.ctx = c)).length + x.respN = x.reqN := ceq_reachable hc hr c x hx hb
+
+/-- Hence a batch that is still marked running has a pending request unless nothing at all was issued for it
+    (a skipped batch): "marked completed as soon as all of its (one or more) requests have been answered". -/
+theorem running_batch_with_requests_has_pending (hc : CfgOK cfg p) {s : State} (hr : Reachable cfg p h0 t0 s)
+    (c : CtxId) (x : Ctx) (hx : Map.get s.ctxs c = some x) (hb : x.bstate = .running) (hlt : x.respN < x.reqN) :
+    ∃ r, r ∈ s.activeI ∧ r.ctx = c := by
+  have h : (s.activeI.filter (fun r => r.ctx = c)).length + x.respN = x.reqN := ceq_reachable hc hr c x hx hb
+  have hpos : 0 < (s.activeI.filter (fun r => r.ctx = c)).length := by omega
+  obtain ⟨r, hr⟩ := List.exists_mem_of_length_pos hpos
+  have := List.mem_filter.mp hr
+  exact ⟨r, this.1, by simpa using this.2⟩
 
 /-- The response callback of a module context gets exactly the non-empty outputs of the batch's responses and an
     error flag iff fewer outputs than the batch threshold arrived (definition of `completeBatch`, the only place
